@@ -482,7 +482,7 @@ def run_group_worker(spec):
         out["error"] = f"{type(e).__name__}: {e}\n{traceback.format_exc(limit=8)}"
     st = solve.STATS
     out["stats"] = dict(queries=st.queries, unsat=st.unsat, sat=st.sat, unknown=st.unknown, time=st.time,
-                        second=st.second_opinions)
+                        second=st.second_opinions, normal_form=st.normal_form)
     out["wall"] = time.time() - t0
     return out
 
@@ -548,7 +548,7 @@ def run_pool(specs, jobs=None):
 def summarize(prop, tier, seed, results, level, bounds, assumptions, functions, explanation, t0):
     known = load_known()
     recs, errors = [], []
-    agg = dict(queries=0, unsat=0, sat=0, unknown=0, time=0.0, second=0)
+    agg = dict(queries=0, unsat=0, sat=0, unknown=0, time=0.0, second=0, normal_form=0)
     validated = twins = ftwins = eqns = ntr = nontrivial = 0
     fns, progs, samples, prims = set(functions), set(), [], set()
     for r in results:
@@ -612,6 +612,8 @@ def summarize(prop, tier, seed, results, level, bounds, assumptions, functions, 
             "solver_queries": agg["queries"], "solver_unsat": agg["unsat"], "solver_sat": agg["sat"],
             "solver_unknown": agg["unknown"], "solver_time_s": round(agg["time"], 3),
             "second_opinions": agg["second"],
+            "decided_by_ring_normal_form": agg["normal_form"],
+            "decided_by_smt_solver": agg["queries"] - agg["normal_form"],
             "functions_encoded": sorted(fns), "primitives_encoded": sorted(prims),
             "bounds": bounds, "trusted_base": TRUSTED_BASE,
             "explanation": explanation,
